@@ -140,6 +140,23 @@ def final (prm : Params K) (ip : Vec K → Vec K → K) (sqrt : K → K) (A : CR
     (ws : Work K) (f x0 : Vec K) (nf : K) : Option Err × St K :=
   loop prm.pside ip sqrt A P (epsTol prm nf) prm.maxiter (init prm ip sqrt A P ws f x0 (epsTol prm nf))
 
+/-- the number the call divides by `norm_rhs` on a normal exit (bicgstab.hpp:242-246):
+`if (prm.check_after && iter == 0) res = norm(*r);` -/
+def repRes (prm : Params K) (ip : Vec K → Vec K → K) (sqrt : K → K) (st : St K) : K :=
+  if prm.checkAfter && st.iter == 0 then nrm ip sqrt st.w.r else st.res
+
+theorem repRes_of_not_ca (prm : Params K) (ip : Vec K → Vec K → K) (sqrt : K → K) (st : St K)
+    (h : prm.checkAfter = false) : repRes prm ip sqrt st = st.res := by
+  simp [repRes, h]
+
+theorem repRes_of_iter_ne (prm : Params K) (ip : Vec K → Vec K → K) (sqrt : K → K) (st : St K)
+    (h : st.iter ≠ 0) : repRes prm ip sqrt st = st.res := by
+  simp [repRes, h]
+
+theorem repRes_ca_zero (prm : Params K) (ip : Vec K → Vec K → K) (sqrt : K → K) (st : St K)
+    (h : prm.checkAfter = true) (h0 : st.iter = 0) : repRes prm ip sqrt st = nrm ip sqrt st.w.r := by
+  simp [repRes, h, h0]
+
 theorem run_trivial (prm : Params K) (ip : Vec K → Vec K → K) (sqrt : K → K) (eps : K) (A : CRS K)
     (P : Vec K → Vec K) (ws : Work K) (f x0 : Vec K) (n : K)
     (h : prologue prm.nsSearch ip sqrt eps f = .trivial n) :
@@ -151,9 +168,9 @@ theorem run_go (prm : Params K) (ip : Vec K → Vec K → K) (sqrt : K → K) (e
     (h : prologue prm.nsSearch ip sqrt eps f = .go nf) :
     run prm ip sqrt eps A P ws f x0 =
       match final prm ip sqrt A P ws f x0 nf with
-      | (none, st)   => (.ok (st.iter, st.res / nf), st.x, st.w)
+      | (none, st)   => (.ok (st.iter, repRes prm ip sqrt st / nf), st.x, st.w)
       | (some e, st) => (.error e, st.x, st.w) := by
-  simp only [run, h, final, epsTol]
+  simp only [run, h, final, epsTol, repRes]
   rfl
 
 theorem init_r (prm : Params K) (ip : Vec K → Vec K → K) (sqrt : K → K) (A : CRS K) (P : Vec K → Vec K)
@@ -190,7 +207,8 @@ theorem final_ok (prm : Params K) (ip : Vec K → Vec K → K) (sqrt : K → K) 
     (h : final prm ip sqrt A P ws f x0 nf = (none, st)) :
     Inv prm.pside ip sqrt A P f (epsTol prm nf) st ∧ st.iter ≤ prm.maxiter ∧
     (st.iter = prm.maxiter ∨ ¬ epsTol prm nf < st.res) ∧
-    (st.iter = 0 → st.res = (init prm ip sqrt A P ws f x0 (epsTol prm nf)).res ∧ st.x = x0) := by
+    (st.iter = 0 → st.res = (init prm ip sqrt A P ws f x0 (epsTol prm nf)).res ∧ st.x = x0 ∧
+      st.w.r = Rf prm.pside P f A x0) := by
   unfold final loop at h
   refine ⟨?_, ?_, ?_, ?_⟩
   · exact loopE_inv _ _ (Inv prm.pside ip sqrt A P f (epsTol prm nf))
@@ -203,9 +221,10 @@ theorem final_ok (prm : Params K) (ip : Vec K → Vec K → K) (sqrt : K → K) 
     · left; simpa [init] using h1
     · right; simpa [cond] using h1
   · exact loopE_inv _ _
-      (fun s => s.iter = 0 → s.res = (init prm ip sqrt A P ws f x0 (epsTol prm nf)).res ∧ s.x = x0)
+      (fun s => s.iter = 0 → s.res = (init prm ip sqrt A P ws f x0 (epsTol prm nf)).res ∧ s.x = x0 ∧
+        s.w.r = Rf prm.pside P f A x0)
       (fun s s' _ _ hb h0 => by rw [body_iter prm.pside ip sqrt A P _ s s' hb] at h0; omega) _ _ _
-      (fun _ => ⟨rfl, rfl⟩) h
+      (fun _ => ⟨rfl, rfl, init_r prm ip sqrt A P ws f x0 _⟩) h
 
 /-! #### work-vector independence -/
 
